@@ -259,6 +259,8 @@ PRIME_MODULI: list = []  # harness-declared primes (ints or SymInt identities)
 
 def mod_inverse(a, m):
     """pow(a, -1, m): fresh witness; invertibility decided for prime moduli only."""
+    if type(m) is int and m == 1:
+        return 0        # CPython: pow(a, -1, 1) == 0
     a = a % m
     prime = any(m is p for p in PRIME_MODULI) or (isinstance(m, int) and all(m % d for d in range(2, int(m ** 0.5) + 1)) and m > 1)
     if not prime:
